@@ -318,7 +318,7 @@ class _GuardWalk:
         """-> does the block always leave the function?  `path`: isinstance facts known to hold"""
         for i, st in enumerate(stmts):
             self.n_at_stmt = len(self.out)
-            if isinstance(st, ast.Pass) or (isinstance(st, ast.Expr) and isinstance(st.value, ast.Constant)):
+            if isinstance(st, ast.Pass) or (isinstance(st, ast.Expr) and isinstance(st.value, ast.Constant)) or norm.is_logging(st):
                 continue
             if isinstance(st, (ast.Assign, ast.AnnAssign)) and getattr(st, "value", None) is not None \
                     and (isinstance(st, ast.AnnAssign) or len(st.targets) == 1):
@@ -373,35 +373,73 @@ def _guards(fn: ast.FunctionDef, sides: dict, allow_pre: bool, helpers: frozense
     return _GuardWalk(fn, sides, allow_pre, helpers).run(is_3d)
 
 
-def _kw_call(node, func_src: str, kws: dict) -> bool:
-    return (isinstance(node, ast.Expr) and isinstance(node.value, ast.Call) and ast.unparse(node.value.func) == func_src
-            and not node.value.args
-            and {k.arg: ast.unparse(k.value) for k in node.value.keywords} == kws)
+def _bound_args(call: ast.Call, params: list[str]) -> dict | None:
+    """keyword view of a call: positional arguments are named after the callee's parameters"""
+    if len(call.args) > len(params) or any(isinstance(a, ast.Starred) for a in call.args):
+        return None
+    got = {p_: ast.unparse(a) for p_, a in zip(params, call.args)}
+    for k in call.keywords:
+        if k.arg is None or k.arg in got:
+            return None
+        got[k.arg] = ast.unparse(k.value)
+    return got
+
+
+def _kw_call(node, func_src: str, kws: dict, params: list[str] | None = None) -> bool:
+    if not (isinstance(node, ast.Expr) and isinstance(node.value, ast.Call) and ast.unparse(node.value.func) == func_src):
+        return False
+    return _bound_args(node.value, params if params is not None else []) == kws
+
+
+CHECK_PARAMS = ["target_fit_range", "out_fit_range", "rows", "cols", "readout_times"]
 
 
 def _check_dispatch(fn: ast.FunctionDef) -> bool:
-    """-> target_first: is the target range validated before the two ranges are compared?"""
-    if [a.arg for a in fn.args.args] != ["target_fit_range", "out_fit_range", "rows", "cols", "readout_times"]:
+    """-> target_first: is the target range validated before the two ranges are compared?
+    Accepted: `if not target_fit_range: return` as a guard clause or as the enclosing `if target_fit_range:` block
+    (`is None` / `is not None` likewise); then, in either order, `if out_fit_range: _check_out_fit_ranges(...)` and the
+    2D/3D dispatch `if isinstance(target_fit_range, FitRange2D): .check(rows, cols) else: .check(rows, cols, readout_times)`
+    (or the mirrored test on FitRange3D); arguments positional or by keyword; logging statements ignored."""
+    if [a.arg for a in fn.args.args] != CHECK_PARAMS:
         fail(fn, "check_fit_ranges signature")
-    b = body_no_doc(fn)
-    if len(b) != 3 or not all(isinstance(s, ast.If) for s in b):
-        fail(fn, "check_fit_ranges body must be three if statements")
-    s0 = b[0]
-    if not (ast.unparse(s0.test) == "not target_fit_range" and len(s0.body) == 1 and isinstance(s0.body[0], ast.Return)
-            and s0.body[0].value is None and not s0.orelse):
-        fail(s0, "expected `if not target_fit_range: return`")
-    target_first = ast.unparse(b[2].test) == "out_fit_range"
-    s1, s2 = (b[2], b[1]) if target_first else (b[1], b[2])
+    import copy as _copy
+    f = _copy.deepcopy(fn)
+    f.body = [st for st in body_no_doc(f) if not norm.is_logging(st)] or [ast.Pass()]
+    f = norm.swap_negated_ifs(norm.lower_returns(f))
+    b = [st for st in f.body if not isinstance(st, ast.Pass)]
+    present = ("target_fit_range", "target_fit_range is not None")
+    if len(b) == 1 and isinstance(b[0], ast.If) and ast.unparse(b[0].test) in present \
+            and all(isinstance(x, ast.Pass) for x in b[0].orelse):
+        b = [st for st in b[0].body if not isinstance(st, ast.Pass)]
+    elif len(b) == 1 and isinstance(b[0], ast.If) and ast.unparse(b[0].test) == "target_fit_range is None" \
+            and all(isinstance(x, ast.Pass) for x in b[0].body):
+        b = [st for st in b[0].orelse if not isinstance(st, ast.Pass)]
+    else:
+        fail(fn, "expected `if not target_fit_range: return` in front of the checks")
+    b = [st for st in b if not norm.is_logging(st)]
+    if len(b) != 2 or not all(isinstance(x, ast.If) for x in b):
+        fail(fn, "check_fit_ranges must consist of the target check and the comparison of the two ranges")
+    target_first = ast.unparse(b[1].test) in ("out_fit_range", "out_fit_range is not None")
+    s1, s2 = (b[1], b[0]) if target_first else (b[0], b[1])
     same = {"target_fit_range": "target_fit_range", "out_fit_range": "out_fit_range"}
     sized = dict(same, rows="rows", cols="cols", readout_times="readout_times")
-    if not (ast.unparse(s1.test) == "out_fit_range" and len(s1.body) == 1 and not s1.orelse
-            and (_kw_call(s1.body[0], "_check_out_fit_ranges", same) or _kw_call(s1.body[0], "_check_out_fit_ranges", sized))):
+    if not (ast.unparse(s1.test) in ("out_fit_range", "out_fit_range is not None") and len(s1.body) == 1 and not s1.orelse
+            and (_kw_call(s1.body[0], "_check_out_fit_ranges", same, CHECK_PARAMS)
+                 or _kw_call(s1.body[0], "_check_out_fit_ranges", sized, CHECK_PARAMS))):
         fail(s1, "expected `if out_fit_range: _check_out_fit_ranges(target_fit_range=..., out_fit_range=...[, rows=rows, "
                  "cols=cols, readout_times=readout_times])`")
-    if not (_is_isinstance(s2.test, "target_fit_range", "FitRange2D") and len(s2.body) == 1 and len(s2.orelse) == 1
-            and _kw_call(s2.body[0], "target_fit_range.check", {"rows": "rows", "cols": "cols"})
-            and _kw_call(s2.orelse[0], "target_fit_range.check",
-                         {"rows": "rows", "cols": "cols", "readout_times": "readout_times"})):
+    two = {"rows": "rows", "cols": "cols"}
+    three = dict(two, readout_times="readout_times")
+    pr = ["rows", "cols", "readout_times"]
+    if len(s2.body) != 1 or len(s2.orelse) != 1:
+        fail(s2, "expected the 2D/3D dispatch to target_fit_range.check(...)")
+    if _is_isinstance(s2.test, "target_fit_range", "FitRange2D"):
+        b2, b3 = s2.body[0], s2.orelse[0]
+    elif _is_isinstance(s2.test, "target_fit_range", "FitRange3D"):
+        b3, b2 = s2.body[0], s2.orelse[0]
+    else:
+        fail(s2, "expected the 2D/3D dispatch to target_fit_range.check(...)")
+    if not (_kw_call(b2, "target_fit_range.check", two, pr) and _kw_call(b3, "target_fit_range.check", three, pr)):
         fail(s2, "expected the 2D/3D dispatch to target_fit_range.check(...)")
     return target_first
 
@@ -579,9 +617,11 @@ def _call_sites(tree) -> tuple[str, str]:
         call = calls[0]
         if not any(isinstance(st, ast.Expr) and st.value is call for st in stmts):
             fail(call, "check_fit_ranges must be called unconditionally as a statement of the branch")
-        if call.args:
-            fail(call, "check_fit_ranges must be called with keyword arguments")
-        kw = {k.arg: k.value for k in call.keywords}
+        if len(call.args) > len(CHECK_PARAMS) or any(isinstance(a, ast.Starred) for a in call.args) \
+                or any(k.arg in CHECK_PARAMS[:len(call.args)] for k in call.keywords):
+            fail(call, "unsupported arguments in the call of check_fit_ranges")
+        kw = dict(zip(CHECK_PARAMS, call.args))
+        kw.update({k.arg: k.value for k in call.keywords})
         if None in kw or not {"target_fit_range", "out_fit_range", "rows", "cols"} <= set(kw) \
                 or not set(kw) <= {"target_fit_range", "out_fit_range", "rows", "cols", "readout_times"}:
             fail(call, "unexpected keywords in the call of check_fit_ranges")
@@ -1263,7 +1303,9 @@ def _class(tree, name):
 
 
 def _norm_guard_fn(tree, fn, cls_name=None):
-    fn = norm.match_to_if(norm.Inliner(_resolver(tree, _class(tree, cls_name) if cls_name else None, UTIL_KEEP)).function(fn))
+    resolve = _resolver(tree, _class(tree, cls_name) if cls_name else None, UTIL_KEEP)
+    fn = norm.match_to_if(norm.Inliner(resolve).function(fn))
+    fn = norm.inline_expr_calls(fn, resolve)
     return norm.renumber(norm.resolve_constants(fn, norm.module_constants(tree)))
 
 
@@ -1290,9 +1332,12 @@ def _norm_fit_tree(tree):
     for i, st in enumerate(cls.body):
         if isinstance(st, ast.FunctionDef) and st.name in ("__init__", "fitness", "_configure_weights"):
             fn = norm.Inliner(resolve).function(st)
+            fn = norm.inline_expr_calls(fn, resolve)
             fn = norm.match_to_if(fn)
             if st.name == "fitness":
-                fn = norm.ifexp_assign(fn)
+                fn = norm.counter_to_enumerate(norm.ifexp_assign(fn))
+            else:
+                fn = norm.lower_returns(fn)
             fn = norm.swap_negated_ifs(fn)
             fn = norm.subst_aliases(fn, writes_of_callees(fn) | norm.self_writes(fn))
             fn = norm.resolve_constants(fn, consts)
